@@ -150,6 +150,12 @@ def build_scalar(d):
 
 def eval_expr(d):
     """build the real objects and apply the real operators"""
+    if 'wrapz' in d:
+        from synphot import SourceSpectrum
+        kw = {'z': fl(d['wrapz']['z'])}
+        if d['wrapz'].get('ztype'):
+            kw['z_type'] = d['wrapz']['ztype']
+        return SourceSpectrum(eval_expr(d['e']), **kw)
     if 'setz' in d:
         obj = eval_expr(d['e'])
         if d['setz'].get('ztype'):
